@@ -1131,21 +1131,19 @@ func c14client(p *Program, r *Report, rule string) {
 			}
 		},
 		Classify: func(v Valuation, pa *Path) string {
-			var sets []string
+			// the value each flag has after this parameter: "offer" when the copy of the offer was not overwritten
+			final := map[string]string{"serverNoContextTakeover": "offer", "clientNoContextTakeover": "offer"}
 			for _, e := range pa.Events {
 				if e.Kind == "store" && strings.HasSuffix(e.AddrK, "NoContextTakeover") {
 					if !isLocalAllocKey(e.AddrK) {
 						return "WRITES-THE-CALLERS-OFFER " + e.AddrK
 					}
-					sets = append(sets, lastDot(e.AddrK)+"="+e.Val.Key())
+					final[lastDot(e.AddrK)] = e.Val.Key()
 				}
 			}
 			switch pa.End {
 			case "loop":
-				if len(sets) == 0 {
-					return "ACCEPT-NO-EFFECT"
-				}
-				return "ACCEPT " + strings.Join(sets, " ")
+				return "ACCEPT server=" + final["serverNoContextTakeover"] + " client=" + final["clientNoContextTakeover"]
 			case "return":
 				if retErr(pa) == "nonnil" && pa.Ret[0].Key() == "nil" {
 					return "ERROR"
@@ -1157,16 +1155,18 @@ func c14client(p *Program, r *Report, rule string) {
 		Oracle: func(v Valuation) []string {
 			s := v.Str("elem(elem(call:websocketExtensions)[0].params)[0]")
 			switch {
+			// the server resets its context only if its response says so (never because the client asked for it in the offer);
+			// the client's own flag may stay as offered
 			case s == "client_no_context_takeover":
-				return []string{"ACCEPT clientNoContextTakeover=true"}
+				return []string{"ACCEPT server=false client=true"}
 			case s == "server_no_context_takeover":
-				return []string{"ACCEPT serverNoContextTakeover=true"}
+				return []string{"ACCEPT server=true client=offer"}
 			case strings.HasPrefix(s, "server_max_window_bits="):
-				return []string{"ACCEPT-NO-EFFECT"}
+				return []string{"ACCEPT server=false client=offer"}
 			}
 			return []string{"ERROR"}
 		},
-		What: "RFC 7692 §7.1: what the client does with one parameter of the server's response (it never offers client_max_window_bits, so that parameter is an error too)",
+		What: "RFC 7692 §7.1: what the client holds after one parameter of the server's response: server_no_context_takeover exactly as the response says (the copy of the offer is cleared first), client_no_context_takeover set by the response or kept as offered; window bits have no effect; anything else (incl. client_max_window_bits, never offered) is an error",
 	})
 }
 
